@@ -383,9 +383,33 @@ Section Pass.
         else RROk (op_ctrlof cur) true
     end.
 
-  (** remotePhase.Reconcile (111-207). [rem]: the in-memory status.remotePhases. The controller of an
-      existing phase object is not looked at. MapConditions is a no-op in the modelled worlds (no condition
-      type contains a "/"). *)
+  (** metav1.IsControlledBy: the first controller reference, compared by UID only. *)
+  Definition controlled_by_uid (owners : list oref) (uid : N) : bool :=
+    match find r_ctrl owners with Some r => r_uid r =? uid | None => false end.
+
+  (** remotePhase.Reconcile as it was before commit a940846 (historical): the controller of an existing phase
+      object is not looked at; whatever exists under the name is recorded, pause-patched and relayed. *)
+  Definition remote_reconcile_v0 (sw : sworld) (s : oset) (ph : phase) (rem : list (N * N))
+    : sworld * list sev * list (N * N) * rrres :=
+    let d := desired_phase s ph in
+    let name := oi_name (op_id d) in
+    match find_phase (sw_phases sw) (oi_kind (op_id d)) (oi_ns (op_id d)) name with
+    | None =>
+        let stored := stamp_phase d (w_uid (sw_w sw)) (w_rv (sw_w sw)) 1 in
+        (with_phases sw (bump_uid_rv (sw_w sw)) (put_phase (sw_phases sw) stored),
+         [SPhase (PGet name None); SPhase (PCreate name (Some stored))], rem, RRErr)
+    | Some cur =>
+        let rem1 := add_remote rem (name, oi_uid (op_id cur)) in
+        if Bool.eqb (op_paused cur) (op_paused d) then (sw, [SPhase (PGet name (Some cur))], rem1, relay cur) else
+        let cur' := phase_with cur (w_rv (sw_w sw)) (op_gen cur + 1) (op_deleting cur) (op_fin cur) (op_orphan cur) (op_paused d) in
+        (with_phases sw (bump_rv (sw_w sw)) (put_phase (sw_phases sw) cur'),
+         [SPhase (PGet name (Some cur)); SPhase (PPause name (op_paused d) (Some cur'))], rem1, relay cur')
+    end.
+
+  (** remotePhase.Reconcile (111-216). [rem]: the in-memory status.remotePhases. A phase object that exists
+      under the name but is not controlled by the ObjectSet is an error (ObjectSetPhaseNotControlledError,
+      140-147): it is not recorded, not patched and not relayed. MapConditions is a no-op in the modelled
+      worlds (no condition type contains a "/"). *)
   Definition remote_reconcile (sw : sworld) (s : oset) (ph : phase) (rem : list (N * N))
     : sworld * list sev * list (N * N) * rrres :=
     let d := desired_phase s ph in
@@ -398,17 +422,14 @@ Section Pass.
         (with_phases sw (bump_uid_rv (sw_w sw)) (put_phase (sw_phases sw) stored),
          [SPhase (PGet name None); SPhase (PCreate name (Some stored))], rem, RRErr)
     | Some cur =>
+        if negb (controlled_by_uid (op_owners cur) (oi_uid (os_id s))) then (sw, [SPhase (PGet name (Some cur))], rem, RRErr) else
         let rem1 := add_remote rem (name, oi_uid (op_id cur)) in
         if Bool.eqb (op_paused cur) (op_paused d) then (sw, [SPhase (PGet name (Some cur))], rem1, relay cur) else
-        (* 160-176: merge patch pinned to the resourceVersion just read; the response replaces [cur] *)
+        (* 169-185: merge patch pinned to the resourceVersion just read; the response replaces [cur] *)
         let cur' := phase_with cur (w_rv (sw_w sw)) (op_gen cur + 1) (op_deleting cur) (op_fin cur) (op_orphan cur) (op_paused d) in
         (with_phases sw (bump_rv (sw_w sw)) (put_phase (sw_phases sw) cur'),
          [SPhase (PGet name (Some cur)); SPhase (PPause name (op_paused d) (Some cur'))], rem1, relay cur')
     end.
-
-  (** metav1.IsControlledBy: the first controller reference, compared by UID only. *)
-  Definition controlled_by_uid (owners : list oref) (uid : N) : bool :=
-    match find r_ctrl owners with Some r => r_uid r =? uid | None => false end.
 
   (** Delete without preconditions of a phase object: finalizers delay it. *)
   Definition delete_phase (sw : sworld) (cur : osphase) : sworld :=
